@@ -3,6 +3,7 @@ package c08
 import (
 	"bytes"
 	"fmt"
+	"runtime"
 	"strings"
 
 	"github.com/ohler55/ojg"
@@ -72,6 +73,21 @@ func errText(err error) string {
 	return err.Error()
 }
 
+// slowWriter is a consumer that looks at the bytes it is handed only after
+// other goroutines had a chance to run (io.Writer may not retain p, but it may
+// take its time inside Write).
+type slowWriter struct{ got []byte }
+
+func (w *slowWriter) Write(p []byte) (int, error) {
+	Pause()
+	w.got = append(w.got, p...)
+	return len(p), nil
+}
+
+// Pause is the scheduling point of slow consumers: the controlled scheduler's
+// Yield under exploration, runtime.Gosched in the free-running race pass.
+var Pause = func() { runtime.Gosched() }
+
 func small() any { return []any{int64(1), "a", true} }
 
 func long() any { return []any{strings.Repeat("0123456789", 30), map[string]any{"k": []any{nil, 1.5}}} }
@@ -97,6 +113,11 @@ func Groups() []*Group {
 			{"oj.JSON(*Other,omitEmpty)", func() (string, []byte) { return oj.JSON(other(), emptyOpt), nil }},
 			{"oj.Marshal(*Outer)", func() (string, []byte) { b, err := oj.Marshal(outer()); return string(b) + " / " + errText(err), b }},
 			{"oj.Marshal(long)", func() (string, []byte) { b, err := oj.Marshal(long()); return string(b) + " / " + errText(err), b }},
+			{"oj.Write(long,slow-consumer)", func() (string, []byte) {
+				w := &slowWriter{}
+				err := oj.Write(w, long())
+				return string(w.got) + " / " + errText(err), nil
+			}},
 			{"oj.Write(small)", func() (string, []byte) {
 				var b bytes.Buffer
 				err := oj.Write(&b, small())
@@ -138,6 +159,11 @@ func Groups() []*Group {
 			{"sen.Bytes(small)", func() (string, []byte) { b := sen.Bytes(small()); return string(b), b }},
 			{"sen.Bytes(long)", func() (string, []byte) { b := sen.Bytes(long()); return string(b), b }},
 			{"sen.Bytes(*Other,omitEmpty)", func() (string, []byte) { b := sen.Bytes(other(), emptyOpt); return string(b), b }},
+			{"sen.Write(long,slow-consumer)", func() (string, []byte) {
+				w := &slowWriter{}
+				err := sen.Write(w, long())
+				return string(w.got) + " / " + errText(err), nil
+			}},
 			{"sen.Write(long)", func() (string, []byte) {
 				var b bytes.Buffer
 				err := sen.Write(&b, long())
